@@ -7,6 +7,8 @@ def check(rep):
     ctx = Ctx(rep)
     PR.rule_compiles(ctx, rid="C14.BOTH-LAYOUTS-PARSE")
     PR.rule_layout_names(ctx)
+    from . import evalrules as ER
+    ER.rule_call_forwards(ctx, rid="C14.EVALUATOR-FORWARDS", no_try=True)
     PR.rule_layouts_agree(ctx)
     PR.rule_header_imports(ctx)
     info = PR.rule_one_generator(ctx)
